@@ -146,6 +146,62 @@ func cancelOracle(r *connRun, toks []int, mask int, instant string) string {
 	return ""
 }
 
+// a subscribing call is cancelled by its caller while it is still in flight (its handler has not handed out the channel
+// yet): like any call in flight, its handler context must be cancelled
+func scenSubInflightCancel(others int) *connRun {
+	e := newConnEnv(connOpts{})
+	params := map[string]interface{}{"others": others}
+	var bystanders []int
+	for i := 0; i < others; i++ {
+		e.hold(i + 1)
+		bystanders = append(bystanders, e.call("waitctx", context.Background()))
+	}
+	for _, t := range bystanders {
+		e.waitEv(2*time.Second, evIs("h.start", t))
+	}
+	e.nextTok++
+	tok := int(e.nextTok)
+	ctx, cancel := context.WithCancel(context.Background())
+	e.tr.ev("call.issue", tok, "subwait")
+	done := make(chan struct{})
+	go func() {
+		defer close(done)
+		ch, err := e.cl.SubWait(ctx, tok, 0)
+		out := "ok"
+		if err != nil {
+			out = "other:" + err.Error()
+		} else {
+			for range ch {
+			}
+		}
+		_ = out
+		e.tr.ev("sub.returned", tok)
+	}()
+	e.waitEv(2*time.Second, evIs("h.start", tok))
+	time.Sleep(5 * time.Millisecond)
+	e.tr.ev("ctx.cancel", tok)
+	cancel()
+	noticed := e.waitEv(time.Second, evIs("h.ctxdone", tok))
+	select {
+	case <-done:
+	case <-time.After(3 * time.Second):
+	}
+	e.releaseAllHolds()
+	e.waitCalls(3 * time.Second)
+	r := e.finish("subinflight", params)
+	if r.Oracle == "" && !noticed {
+		r.Oracle = fmt.Sprintf("subscribing call %d was cancelled by its caller while in flight; the context of its handler was still live 1s later", tok)
+	}
+	if r.Oracle == "" {
+		for _, ev := range r.Events {
+			if ev.Point == "h.ctxdone" && fmt.Sprint(ev.Args[0]) != fmt.Sprint(tok) {
+				r.Oracle = fmt.Sprintf("the handler context of call %v was cancelled although only call %d was", ev.Args[0], tok)
+			}
+		}
+	}
+	return r
+}
+
 // subcancel: unary calls in flight (held) next to subscriptions; subscription contexts are cancelled after their
 // subscribing calls have returned. Exactly the cancelled subscriptions' handlers may see their context cancelled.
 func scenSubCancel(nUnary, nSubs int, mask int) *connRun {
@@ -234,9 +290,13 @@ func scenSubCancel(nUnary, nSubs int, mask int) *connRun {
 }
 
 // connend: handlers in progress (unary with id, notification, streaming) when the connection ends for a given cause
+// set around a scenConnEnd call: the stream's producer stops on its cancelled context without closing its channel
+var connendLeakyProducer bool
+
 func scenConnEnd(cause string, withStream bool) *connRun {
 	e := newConnEnv(connOpts{noReconnect: true})
-	params := map[string]interface{}{"cause": cause, "stream": withStream}
+	e.subNoClose = connendLeakyProducer
+	params := map[string]interface{}{"cause": cause, "stream": withStream, "producer_closes": !connendLeakyProducer}
 	e.hold(1)
 	e.hold(2)
 	e.hold(3)
@@ -423,11 +483,19 @@ func init() {
 			for _, cfg := range [][3]int{{1, 1, 1}, {1, 2, 1}, {1, 2, 2}, {2, 2, 3}, {0, 2, 2}, {2, 1, 0}, {2, 3, 5}} {
 				emit(scenSubCancel(cfg[0], cfg[1], cfg[2]))
 			}
+			for _, o := range []int{0, 2} {
+				emit(scenSubInflightCancel(o))
+			}
 		}
 		if which == "all" || which == "connend" {
 			for _, c := range []string{"client-close", "fin", "rst", "server-cancel"} {
 				emit(scenConnEnd(c, false))
 				emit(scenConnEnd(c, true))
+				if c == "client-close" || c == "rst" {
+					connendLeakyProducer = true
+					emit(scenConnEnd(c, true))
+					connendLeakyProducer = false
+				}
 			}
 			emit(scenConnEndBlocked())
 		}
